@@ -96,6 +96,15 @@ def check_one(statuses, cmd, code):
     else:
         sp = specific_class(cf, code)
         exp = {sp} if sp else general_tolerated(code)
+    if cmd is not None and code != 0 and specific_class(cf, code) is None:
+        # no service-specific entry for this command: the class can only come from the general table, so it
+        # must be what the code gets without any command (a service's specific classes must not leak into
+        # another service)
+        general = statuses.Status(code).status_type
+        if got != general:
+            raise Violation('C18:leak:%s->%s' % (general, got),
+                            'Status(0x%04X, %s) is %s although this command has no specific entry for the code and '
+                            'the general classification is %s' % (code, name, got, general), case)
     if got not in exp:
         sp = specific_class(cf, code)
         bucket = 'specific' if sp else 'general'
@@ -161,7 +170,8 @@ def run(ctx):
     ctx.assumptions = [
         'reference table transcribed from PS3.7 Annex C and PS3.4 B.2.3 / C.4.1-C.4.3',
         'codes outside every table may be Failure, or the class PS3.7 assigns by pattern '
-        '(Warning for 0001/0107/0116/Bxxx, Cancel FE00, Pending FF00/FF01)']
+        '(Warning for 0001/0107/0116/Bxxx, Cancel FE00, Pending FF00/FF01)',
+        'a code without a service-specific entry for the command must get the same class as without a command']
     cmds = [None] + message_classes()
     for cmd in cmds:
         cf = cmd.command_field if cmd is not None else None
